@@ -103,8 +103,10 @@ func (t *Tx) Rollback(ctx context.Context) error {
 	if t.done {
 		return ErrTxDone
 	}
+	// a fault point like any round trip; the handle is closed and the transaction over whether or not the call fails
+	err := t.f.prim("rollback")
 	t.end("rollback")
-	return nil
+	return err
 }
 
 func (t *Tx) CopyFrom(ctx context.Context, tableName pgx.Identifier, columnNames []string, rowSrc pgx.CopyFromSource) (int64, error) {
@@ -208,6 +210,12 @@ func (r *Rows) Conn() *pgx.Conn                              { return nil }
 
 func (r *Rows) Next() bool {
 	if len(r.rows) == 0 {
+		return false
+	}
+	// advancing to a row that exists is a fault point: the failure is reported through Err(), Next just says false
+	if err := r.t.f.prim("next"); err != nil {
+		r.t.poisoned = true
+		r.err = err
 		return false
 	}
 	r.cur = r.rows[0]
